@@ -351,6 +351,7 @@ theorem handleNewView_ev (w : W) (nvm : NVMsg) : Evolves J w.n (handleNewView w 
   split; exact .refl _
   split; exact .refl _
   split; exact .refl _
+  split; exact .refl _
   exact adoptNewView_ev w nvm
 
 theorem onElectedByViewChange_ev (w : W) (view : Nat) (vcs : List VCMsg)
